@@ -1,7 +1,7 @@
 """C05 — condition variable: atomic unlock-and-wait, no lost signal, broadcast wakes all (structural part)."""
 from core import strip, is_field, key_mentions, order_ge, key_str
 from facts import AnalysisBroken
-from rules import (nodeset, ev, Unevaluable, forced_edges, atom_from, reach, atomic_ops, ret_const, callpred)
+from rules import (check_init, nodeset, ev, Unevaluable, forced_edges, atom_from, reach, atomic_ops, ret_const, callpred)
 import stale
 from props import c01
 
@@ -165,3 +165,4 @@ def run(ctx):
     if not pushes or not ys or any(q.dominated_by(y, nodeset(pushes)) is not None for y in ys):
         bad = "yield reachable before the push"
     o.check(bad is None, "push before yield", bad, site=q.loc, construct="enqueue before yield")
+    check_init(ctx, P, "fiber_cond_init", [("fiber_cond", "waiter_count", 0)], calls=["mpsc_fifo_init", "fiber_mutex_init"])
